@@ -135,6 +135,8 @@ def make_symbolic(spec, state, name):
         return SFunc(spec.name), assumptions
     if isinstance(spec, NoneSort):
         return NONE, assumptions
+    if hasattr(spec, 'make'):
+        return spec.make(state, name)
     raise Unsupported(f"sort spec {spec}")
 
 
@@ -237,6 +239,20 @@ class ArrView:
     def cells(self):
         """python list of cells for concrete-length views"""
         return [self[i] for i in range(len(self))]
+
+
+def same_array(r, x):
+    """r IS the array x (same buffer, same window) - for functions returning views of existing buffers"""
+    ra, xa = (r.arr if isinstance(r, ArrView) else r), (x.arr if isinstance(x, ArrView) else x)
+    if ra.base is not xa.base or len(ra.dims) != len(xa.dims):
+        return SBool(False)
+    out = SBool(True)
+    for d, e in zip(ra.dims, xa.dims):
+        if d[0] != e[0]:
+            return SBool(False)
+        for a, b in zip(d[1:], e[1:]):
+            out = out & (a == b)
+    return out
 
 
 class _Sink:
@@ -408,9 +424,12 @@ class Registry:
 
     def lookup(self, name, cls=None):
         if cls is not None:
-            cands = self.by_name.get(f"{cls}.{name}", [])
-            if len(cands) == 1:
-                return cands[0]
+            from . import extract
+            for k in extract.mro(cls):
+                cands = self.by_name.get(f"{k}.{name}", [])
+                if len(cands) == 1:
+                    return cands[0]
+            return None
         cands = self.by_name.get(name, [])
         if len(cands) == 1:
             return cands[0]
